@@ -112,6 +112,29 @@ where
     }
 }
 
+/// Verification hooks (compiled only with `--cfg dsi_bitstream_verif`): build a
+/// reader from, and inspect, its private fields.
+#[cfg(dsi_bitstream_verif)]
+impl<E: Endianness, WR: WordRead, RP: ReadParams> BufBitReader<E, WR, RP>
+where
+    WR::Word: DoubleType,
+{
+    #[doc(hidden)]
+    pub fn verif_from_parts(backend: WR, buffer: BB<WR>, bits_in_buffer: usize) -> Self {
+        Self {
+            backend,
+            buffer,
+            bits_in_buffer,
+            _marker: core::marker::PhantomData,
+        }
+    }
+
+    #[doc(hidden)]
+    pub fn verif_parts(&self) -> (&WR, BB<WR>, usize) {
+        (&self.backend, self.buffer, self.bits_in_buffer)
+    }
+}
+
 //
 // Big-endian implementation
 //
